@@ -386,8 +386,10 @@ class Mesh:
                     (1 << np.arange(self.refdom.nfacets))[:, None]
                     & data[0].astype(np.int32)
                 ).astype(bool)
-                facets = np.sort(self.t2f[mask])
-                cells = mask.nonzero()[1]
+                facets = self.t2f[mask]
+                order = np.argsort(facets)
+                facets = facets[order]
+                cells = mask.nonzero()[1][order]
                 ori = np.arange(2) @ (self.f2t[:, facets] == cells)
                 boundaries[subnames[2]] = (
                     OrientedBoundary(facets, ori) if ori.any() else facets
